@@ -228,6 +228,27 @@ fn any_triangle_g(g: i32) -> ([[i32; 2]; 3], [Point<f64, 2>; 3]) {
 }
 
 harness! {
+    // bound: circumcenter D=2, first point at the origin, two further points with integer coordinates in [0,3]^2, EXACTLY collinear: must be Err (KNOWN FINDING F4: Ok(garbage) when the LU elimination leaves a rounding residue as pivot)
+    #[kani::unwind(5)]
+    fn c18_circumcenter_degenerate_2d_origin_g3() {
+        let c: [u8; 4] = kani::any();
+        kani::assume(c[0] <= 3 && c[1] <= 3 && c[2] <= 3 && c[3] <= 3);
+        let ip = [[0, 0], [i32::from(c[0]), i32::from(c[1])], [i32::from(c[2]), i32::from(c[3])]];
+        let pts = [
+            Point::new([0.0, 0.0]),
+            Point::new([f64::from(c[0]), f64::from(c[1])]),
+            Point::new([f64::from(c[2]), f64::from(c[3])]),
+        ];
+        let (d, _, _) = exact_circumcentre_2d(&ip);
+        kani::assume(d == 0);
+        let got = circumcenter(&pts);
+        assert!(got.is_err(), "a degenerate simplex has no circumcentre");
+        kani::cover!(c[0] != 0 && c[2] != c[0] && c[1] != 0, "three distinct collinear points on a slanted line reached");
+        core::mem::forget(got);
+    }
+}
+
+harness! {
     // bound: circumcenter D=2, 3 EXACTLY collinear points with integer coordinates in [-2,2]: must be Err (KNOWN FINDING F4: Ok(garbage) when the LU elimination leaves a rounding residue as pivot)
     #[kani::unwind(5)]
     fn c18_circumcenter_degenerate_2d_g2() {
